@@ -349,7 +349,12 @@ pub fn run_case(cl: &Clause, case: &Case, verbose: bool) -> CaseRun {
     out.verdict = match (r, ck.fail.clone()) {
         (Err(p), _) => Verdict::Violated(Engine::Iv, format!("unexpected panic: {p}")),
         (Ok(()), Some(f)) => Verdict::Violated(Engine::Iv, f),
-        (Ok(()), None) => Verdict::Held(Engine::Iv),
+        (Ok(()), None) => {
+            for (lo, hi) in &ck.trace {
+                crate::iv::note_width(hi - lo);
+            }
+            Verdict::Held(Engine::Iv)
+        }
     };
     // (N) native containment self-test: the native f64 run must stay inside
     // the enclosures along the same (certain) path.
@@ -360,7 +365,10 @@ pub fn run_case(cl: &Clause, case: &Case, verbose: bool) -> CaseRun {
             let mut ok = true;
             let mut bad = String::new();
             for (i, ((lo, hi), (x, _))) in ck.trace.iter().zip(ckn.trace.iter()).enumerate() {
-                if !(lo <= x && x <= hi) {
+                // IEEE signed zeros put atan2(-0, x<0) at -pi where the real
+                // function has +pi: accept the mirror image at the branch cut only
+                let at_cut = x.abs() > 3.141592 && x.abs() < 3.141593 && *lo <= -x && -x <= *hi;
+                if !(lo <= x && x <= hi) && !at_cut {
                     ok = false;
                     bad = format!("oracle value #{i}: native {x:?} outside [{lo:?}, {hi:?}]");
                     break;
